@@ -48,7 +48,8 @@ def model_check(rep):
         runs.append(("whole-catalogue-len4-coverage", consts(2, 4, [1], ALL_KINDS), "", True))
         runs.append(("names-inventory-len7", consts(2, 7, [1], NAME_KINDS + INV_KINDS), "", False))
         runs.append(("subcatalogue-2values-len6", consts(2, 6, [1, 2], SUB_KINDS), "RecoveryBehaviour", False))
-        runs.append(("whole-catalogue-2values-3contexts-len3", consts(3, 3, [1, 2], ALL_KINDS), "RecoveryBehaviour", False))
+        runs.append(("catalogue-2values-3contexts-len3", consts(3, 3, [1, 2], BASE_KINDS), "RecoveryBehaviour", False))
+        runs.append(("whole-catalogue-2values-3contexts-len2", consts(3, 2, [1, 2], ALL_KINDS), "RecoveryBehaviour", False))
     fired = {}
     for name, cs, extra_inv, cov in runs:
         res = tlc.run(rep.pid, "ContextModel", MC_CFG % (cs, extra_inv), timeout=1500, tag="mc_" + name, coverage=cov, heap="6g")
